@@ -252,6 +252,26 @@ func genC11(t *rapid.T) *Case {
 		}
 	}
 	c.P = map[string]V{"nA": VInt(nA)}
+	if len(c.Realms) == 2 && nA >= 3 && pct(t, 12, "reuseconfig") {
+		// The embedding application keeps one RealmConfig value: after removing B it overwrites
+		// the object it configured A with (other meta settings) and adds B again with it.
+		// What A's sessions see in session meta events and answers must not change.
+		c.Realms[0].MetaStrict, c.Realms[1].MetaStrict = true, false
+		for i := 0; i < nA; i++ {
+			c.Sess[i].Hello = append(c.Sess[i].Hello, KV{"org", VStr("x")})
+		}
+		late := nA - 1
+		c.Sess[late].NoJoin = true
+		var kept []Op
+		for _, op := range c.Ops {
+			if !(op.K == "join" && op.S == late) {
+				kept = append(kept, op)
+			}
+		}
+		c.Ops = append(kept, Op{K: "remove_realm", S: nA, URI: "r2", N: 555}, Op{K: "add_realm", S: nA, URI: "r2", N: 555},
+			Op{K: "join", S: late}, Op{K: "meta", S: 0, URI: "wamp.session.get", Args: []V{VRef(fmt.Sprintf("sid:%d", late))}})
+		c.P["reuse_config"] = VBool(true)
+	}
 	return c
 }
 
